@@ -440,7 +440,18 @@ func (c *Ctx) checkWritten(op *Op, ri *respImpl, v reflect.Value, raw string, w 
 			c.Viol("body", "a response documented without content wrote a body", in, "", trunc(w.Body.String(), 100))
 		}
 	case !strings.HasPrefix(ct, dr.ContentType):
-		c.Viol("content-type", "Content-Type is not the documented media type", in, dr.ContentType, ct)
+		// a response declaring several non-JSON media types documents each of them
+		ok := false
+		if !dr.JSON {
+			for _, mt := range dr.MediaTypes {
+				if ct != "" && strings.HasPrefix(ct, mt) {
+					ok = true
+				}
+			}
+		}
+		if !ok {
+			c.Viol("content-type", "Content-Type is not the documented media type", in, dr.ContentType, ct)
+		}
 	}
 	// headers
 	declared := map[string]oas.Header{}
